@@ -178,15 +178,11 @@ theorem C09_eq_det (pick₁ : Pick σ₁ σ₂) (pick₂ : Pick σ₂ σ₁) (A 
   rw [C09_eq_iff_language pick₁ pick₂ A B hA hB hs, _root_.NFA.toDFA_correct,
     _root_.NFA.toDFA_correct, εNFA.toNFA_correct, εNFA.toNFA_correct]
 
-/-- Full statement of the "same as comparing their determinisations" clause in terms of the
-library's own functions: `A == B` equals `DFA.from_nfa(A) == DFA.from_nfa(B)`.  The models of
-`DFA.from_nfa` (C07) and `DFA.__eq__` (C06) live in other property files, so they are
-parameters here; the clause is proved against Mathlib's subset construction (`C09_eq_det`)
-and is evaluated on the real code by the harness on every generated pair. -/
-def C09_eq_det_full {δ : Type} (fromNfa : AV.NFA Nat Nat → δ) (dfaEq : δ → δ → Option Bool) : Prop :=
-  ∀ (A B : AV.NFA Nat Nat), A.validate = .ok () → B.validate = .ok () →
-    sameSyms A.syms B.syms = true → ∀ (pick₁ pick₂ : Pick Nat Nat),
-      eqOp pick₁ pick₂ A B = dfaEq (fromNfa A) (fromNfa B)
+/- The "same as comparing their determinisations" clause in terms of the library's OWN
+functions (`A == B` equals `DFA.from_nfa(A) == DFA.from_nfa(B)`, for the default options and
+for every other option combination) needs the models of `DFA.from_nfa` (C07) and
+`DFA.__eq__` (C06); it is proved in Props/C09b.lean: `C09_eq_det_lib`,
+`C09_eq_det_lib_renumbered`, `C09_eq_det_lib_default`, `C09_eq_det_lib_default_renumbered`. -/
 
 /-- Outside the property's domain (different alphabets): `__eq__` returns `NotImplemented`
 both ways, so `==` is `False` and `!=` is `True` (identity comparison of distinct objects). -/
